@@ -128,10 +128,14 @@ func main() {
 		"(consecutive log indices), as the Raft group does with proposals that arrive together (scripts above 50k schedules and the quick-tier 3x2 selection are sampled with the seeded PRNG, exhaustive=false); " +
 		"a schedule is non-trivial when one node's read falls between another node's read and that node's write (overlapping read→write windows); " +
 		"distinct by hash of (script, interleaving signature)")
-	r.Assume("replicated-log part: three real kv.LFSM replicas fed from one agreed log by the driver (single entries for the proposer, one apply batch for a replica that catches up, "+
-		"RecoverFromSnapshot on the live state machine when the log was compacted past it, fresh state machine + own snapshot + own log on restart), managers read their local replica and are told "+
-		"their local replica's result; calls are atomic there; scenarios = every [<=1-2 calls] / one replica away / [<=1-2 calls by the others] / snapshot+compact or not / back by resume or "+
-		"restart / [<=2 calls], plus seeded random mixes; non-trivial = a snapshot is installed on a replica whose lease record differs from the snapshot's",
+	r.Assume("worker part: a real leader cluster and a real 3-node follower cluster with one replication.Manager per node (lease interval 200 ms); 'acts as lease holder' = the worker's exported flag "+
+		"(gauge regatta_replication_leased), corroborated by the Replicate calls each node issues; fault = the lease-record lookup of one node's metadata state machine fails (wrapper around the real "+
+		"kv.LFSM installed through the NodeHost API), which also counts that node's failed renewal attempts; the verdict needs no clock: record names another unexpired owner, then >= 2 failed "+
+		"renewals completed, then both workers' flags set",
+		"replicated-log part: three real kv.LFSM replicas fed from one agreed log by the driver (single entries for the proposer, one apply batch for a replica that catches up, "+
+			"RecoverFromSnapshot on the live state machine when the log was compacted past it, fresh state machine + own snapshot + own log on restart), managers read their local replica and are told "+
+			"their local replica's result; calls are atomic there; scenarios = every [<=1-2 calls] / one replica away / [<=1-2 calls by the others] / snapshot+compact or not / back by resume or "+
+			"restart / [<=2 calls], plus seeded random mixes; non-trivial = a snapshot is installed on a replica whose lease record differs from the snapshot's",
 		"inside a group-commit batch each entry is judged at its position in the log; the record between two entries of one Update call is what the "+
 			"acknowledged entries so far produced (checked against the store at the end of the batch)",
 		"lease expiry is decided from the durations used (+1h = unexpired for the whole run, -1h = expired when written), never from the clock",
@@ -194,6 +198,13 @@ func main() {
 	runStress(r, r.Seed, r.Pick(500, 3000), 3)
 	fmt.Printf("C15 stress took %.1fs\n", time.Since(t0).Seconds())
 
+	// the lease as the replication worker acts upon it (real leader + 3-node follower cluster)
+	t0 = time.Now()
+	runWorkerLease(r, r.Pick(3, 8))
+	fmt.Printf("C15 worker lease took %.1fs\n", time.Since(t0).Seconds())
+
+	r.FloorCount("worker_trials", int64(r.Pick(3, 8)))
+	r.FloorCount("worker_takeovers", int64(r.Pick(3, 8)))
 	r.FloorNontrivial(int64(r.Pick(10_000, 500_000)))
 	r.FloorCount("schedules", int64(r.Pick(20_000, 1_000_000)))
 	for _, c := range []string{"lease_ok_unclaimed", "lease_ok_renew_own", "lease_ok_takeover_expired", "lease_refused_live_foreign",
@@ -447,6 +458,9 @@ func replay(r *ev.Run) {
 		}
 	case "replicas":
 		replayReplicas(r, w.found.Steps)
+	case "worker":
+		// schedule-dependent: run the part again
+		runWorkerLease(r, 4)
 	case "stress":
 		// schedule-dependent: re-run the same workload (same seed) and report what it shows
 		for i := 0; i < 3 && r.Violations() == 0; i++ {
